@@ -428,6 +428,25 @@ func RulePanic(r *Report, p *Program, tier string, wireTypes map[string]bool) {
 						}
 					}
 				case *ssa.Call:
+					if f := x.Call.StaticCallee(); f != nil && calleeName(f) == "(time.Time).In" && len(x.Call.Args) == 2 {
+						// Time.In panics on a nil *Location (documented)
+						loc := x.Call.Args[1]
+						okLoc := false
+						if u, isLoad := loc.(*ssa.UnOp); isLoad {
+							if g, isG := u.X.(*ssa.Global); isG && g.Pkg != nil && g.Pkg.Pkg.Path() == "time" {
+								okLoc = true // time.Local, time.UTC
+							}
+						}
+						if c, isCall := loc.(*ssa.Call); isCall {
+							if cf := c.Call.StaticCallee(); cf != nil && (calleeName(cf) == "time.FixedZone" || calleeName(cf) == "(time.Time).Location") {
+								okLoc = true
+							}
+						}
+						if nonNilDominates(x.Block(), loc) {
+							okLoc = true
+						}
+						add(panicSite{fn: fn, instr: x, kind: "nil-location", rule: "P5", ok: okLoc, why: "location is time.Local/time.UTC, a fixed zone, or checked for nil", detail: "Time.In is called with a *time.Location that may be nil (e.g. a configured controller's unset time zone): it panics"})
+					}
 					if f := x.Call.StaticCallee(); f != nil && calleeName(f) == "regexp.MustCompile" {
 						s, ok := constStr(x.Call.Args[0])
 						okc := false
